@@ -253,6 +253,21 @@ def run(ctx: Any, prog: Program) -> None:
                 and c.args and isinstance(c.args[0], ast.Constant) and isinstance(c.args[0].value, str) and '\\' in c.args[0].value:
             ctx.check('C02.T2', False, tk, c, f'`{U(c)}` rewrites the already escaped text: the search text {c.args[0].value!r} also occurs where an escaped backslash is followed by '
                       f'{c.args[0].value[1:]!r} (`\\\\{c.args[0].value[1:]}`), so a literal backslash + {c.args[0].value[1:]!r} in the input is corrupted', func='escape_text', text='no rewrite of escaped text')
+    # a second escaping path made of whole-string replace() passes over the table is order-sensitive: every replacement starts with the escape
+    # character, so the pass for the escape character itself has to come first - later it doubles the backslashes the other passes inserted
+    for lp in ast.walk(et0):
+        if not (isinstance(lp, ast.For) and isinstance(lp.iter, ast.Call) and isinstance(lp.iter.func, ast.Attribute) and lp.iter.func.attr == 'items' and dotted(lp.iter.func.value) == 'ESCAPES_INV'
+                and isinstance(lp.target, ast.Tuple) and len(lp.target.elts) == 2 and all(isinstance(e_, ast.Name) for e_ in lp.target.elts)):
+            continue
+        kvar, rvar = lp.target.elts[0].id, lp.target.elts[1].id
+        reps = [c for b in lp.body for c in ast.walk(b) if isinstance(c, ast.Call) and isinstance(c.func, ast.Attribute) and c.func.attr == 'replace' and [dotted(a) for a in c.args] == [kvar, rvar]]
+        if not reps:
+            continue
+        order = list(INV)
+        bs_at = order.index('\\') if '\\' in order else None
+        ctx.check('C02.T2', bs_at == 0, tk, reps[0], f'escape_text escapes (some) strings by running `{U(reps[0])[:50]}` for every entry of ESCAPES_INV in table order {order}: the backslash comes '
+                  + (f'at position {bs_at}' if bs_at is not None else 'nowhere') + ', after other entries, so the backslashes those passes have just inserted are doubled (`"` -> `\\"` -> `\\\\"`) and the text reads back '
+                  'as a literal backslash followed by the raw character', func='escape_text', text='replace passes: escape character first')
     rx1 = fold.global_('ESCAPE_RE')
     rxm = fold.global_('ESCAPE_MULTILINE_RE')
     if not isinstance(rx1, Regex) or not isinstance(rxm, Regex):
@@ -741,6 +756,7 @@ def run(ctx: Any, prog: Program) -> None:
 
 
 MUTANTS = [
+    {'id': 'long_strings_escaped_by_replace_passes', 'file': 'tokenizer.py', 'find': "    return (ESCAPE_MULTILINE_RE if multiline else ESCAPE_RE).sub(_escape_matcher, text)", 'replace': "    if len(text) < 4096:\n        return (ESCAPE_MULTILINE_RE if multiline else ESCAPE_RE).sub(_escape_matcher, text)\n    unescaped = '?/\\n' if multiline else '?/'\n    for char, escape in ESCAPES_INV.items():\n        if char not in unescaped and char in text:\n            text = text.replace(char, escape)\n    return text", 'expect': 'C02.T2'},
     {'id': 'multiline_pair_wrong_replacement', 'file': 'tokenizer.py', 'find': "ESCAPE_MULTILINE_RE = re.compile('|'.join(\n    re.escape(c) for c in ESCAPES_INV\n    if c not in '?/\\n'\n))\n", 'replace': "ESCAPES_INV_MULTILINE = {**ESCAPES_INV, '\\\\\\n': '\\\\\\\\n'}\ndel ESCAPES_INV_MULTILINE['\\n']\nESCAPE_MULTILINE_RE = re.compile('|'.join(\n    re.escape(c) for c in sorted(ESCAPES_INV_MULTILINE, key=len, reverse=True)\n    if c not in '?/'\n))\n", 'extra': [{'file': 'tokenizer.py', 'find': "def escape_text(text: str, multiline: bool=False) -> str:", 'replace': "def _escape_matcher_multiline(match: re.Match[str]) -> str:\n    return ESCAPES_INV_MULTILINE[match.group()]\n\n\ndef escape_text(text: str, multiline: bool=False) -> str:"}, {'file': 'tokenizer.py', 'find': "    return (ESCAPE_MULTILINE_RE if multiline else ESCAPE_RE).sub(_escape_matcher, text)", 'replace': "    if multiline:\n        return ESCAPE_MULTILINE_RE.sub(_escape_matcher_multiline, text)\n    return ESCAPE_RE.sub(_escape_matcher, text)"}], 'expect': 'C02.T2'},
     {'id': 'ok_multiline_pair_right_replacement', 'file': 'tokenizer.py', 'find': "ESCAPE_MULTILINE_RE = re.compile('|'.join(\n    re.escape(c) for c in ESCAPES_INV\n    if c not in '?/\\n'\n))\n", 'replace': "ESCAPES_INV_MULTILINE = {**ESCAPES_INV, '\\\\\\n': '\\\\\\\\\\n'}\ndel ESCAPES_INV_MULTILINE['\\n']\nESCAPE_MULTILINE_RE = re.compile('|'.join(\n    re.escape(c) for c in sorted(ESCAPES_INV_MULTILINE, key=len, reverse=True)\n    if c not in '?/'\n))\n", 'extra': [{'file': 'tokenizer.py', 'find': "def escape_text(text: str, multiline: bool=False) -> str:", 'replace': "def _escape_matcher_multiline(match: re.Match[str]) -> str:\n    return ESCAPES_INV_MULTILINE[match.group()]\n\n\ndef escape_text(text: str, multiline: bool=False) -> str:"}, {'file': 'tokenizer.py', 'find': "    return (ESCAPE_MULTILINE_RE if multiline else ESCAPE_RE).sub(_escape_matcher, text)", 'replace': "    if multiline:\n        return ESCAPE_MULTILINE_RE.sub(_escape_matcher_multiline, text)\n    return ESCAPE_RE.sub(_escape_matcher, text)"}], 'expect': None, 'note': 'negative control: backslash+LF replaced by escaped backslash + raw LF'},
     {'id': 'escape_sub_limited_by_flag_as_count', 'file': 'tokenizer.py', 'find': "    return (ESCAPE_MULTILINE_RE if multiline else ESCAPE_RE).sub(_escape_matcher, text)", 'replace': "    if multiline:\n        return ESCAPE_MULTILINE_RE.sub(_escape_matcher, text, re.MULTILINE)\n    return ESCAPE_RE.sub(_escape_matcher, text)", 'expect': 'C02.T2'},
